@@ -300,13 +300,69 @@ def primitives_check(res, rng):
     cmp("hermitianize", dmf.hermitianize(m), (m + m.conj().T) / 2)
 
 
-def one_case(ctx, res, drv, rng, SC, DC, ne, np_, nc, length, use_dm, init=False):
+def _variant(rng, d):
+    """another operation on the same registers as descriptor `d` (what `replace_op` accepts); None if there is none"""
+    k = d[0]
+    if k in GEN_NAMES or k == "PhaseDagger":
+        return (rng.choice([g for g in GEN_NAMES + ["PhaseDagger"] if g != k]), d[1])
+    if k == "W":
+        return (rng.choice(GEN_NAMES), d[2]) if rng.random() < 0.5 else ("W", tuple(rng.choice(GEN_NAMES) for _ in range(rng.randrange(1, 4))), d[2])
+    if k in ("CX", "CZ"):
+        return ("CZ" if k == "CX" else "CX", d[1], d[2])
+    if k in ("CCX", "CCZ"):
+        return ("CCZ" if k == "CCX" else "CCX", d[1], d[2], d[3])
+    return None
+
+
+def edited_circuit(rng, SC, desc, ne, np_, nc):
+    """a circuit object with a *history*: built, compiled once (whatever the library caches about the circuit is now filled), then some of its
+    operations exchanged through `replace_op`, possibly on a copy.  Returns (object, descriptor list of what the object now is)."""
+    circuit = build(desc, ne, np_, nc)
+    ids = sorted(n for n in circuit.dag.nodes if isinstance(n, int))
+    if len(ids) != len(desc):
+        return circuit, desc
+    try:
+        SC().compile(circuit)
+    except Exception:  # noqa: BLE001 — reported by the ordinary stream
+        pass
+    circuit.sequence()
+    if rng.random() < 0.4:
+        circuit = circuit.copy()
+    new_desc = list(desc)
+    for k in rng.sample(range(len(desc)), min(len(desc), rng.randrange(1, 4))):
+        v = _variant(rng, desc[k])
+        if v is None:
+            continue
+        circuit.replace_op(ids[k], _mk_op(v))
+        new_desc[k] = v
+    return circuit, new_desc
+
+
+def _mk_op(d):
+    """the operation object of one descriptor (same construction as `build`)"""
+    c = build([d], 64, 64, 8)
+    (n,) = [x for x in c.dag.nodes if isinstance(x, int)]
+    return c.dag.nodes[n]["op"]
+
+
+def one_case(ctx, res, drv, rng, SC, DC, ne, np_, nc, length, use_dm, init=False, history=False):
     import numpy.random as npr
     from graphiq.state import QuantumState
 
     desc = gen_circuit(rng, ne, np_, nc, length)
-    circuit = build(desc, ne, np_, nc)
-    toks, kinds = tokens_of(circuit)
+    if history and desc:
+        # the circuit the backends compile is reached through compile -> replace_op (-> copy); what it *is* (the model's input) is read off a
+        # freshly built circuit with the same operations, never off the edited object's own `sequence()`
+        circuit, desc = edited_circuit(rng, SC, desc, ne, np_, nc)
+        toks, kinds = tokens_of(build(desc, ne, np_, nc))
+        own = tokens_of(circuit)[0]
+        res.count("branches", "history:compile-replace_op-compile")
+        if own != toks:
+            res.violation("circuit:sequence-differs-from-dag-after-replace_op", "after compile -> replace_op the circuit's sequence() is not the operations its DAG holds",
+                          input={"ne": ne, "np": np_, "nc": nc, "ops": ",".join(toks), "sequence": ",".join(own)})
+    else:
+        circuit = build(desc, ne, np_, nc)
+        toks, kinds = tokens_of(circuit)
     n = ne + np_
     init_tab = tu.random_tableau(rng, n) if init else None
     lines, items = [], []
@@ -488,7 +544,7 @@ def run(ctx, budget=1.0):
         if ne + np_ > 6:
             np_ = 6 - ne
         nc = rng.randrange(0, 4)
-        one_case(ctx, res, drv, rng, SC, DC, ne, np_, nc, rng.randrange(0, 26 if ctx.quick else 60), True, init=(k % 7 == 3))
+        one_case(ctx, res, drv, rng, SC, DC, ne, np_, nc, rng.randrange(0, 26 if ctx.quick else 60), True, init=(k % 7 == 3), history=(k % 5 == 1))
     for k in range(int((25 if ctx.quick else 200) * budget)):
         ne = rng.randrange(2, 12)
         np_ = rng.randrange(3, 30)
